@@ -484,6 +484,55 @@ def run_round5(chk, rng, judge, mult, emit):
         chk.count(key=("cp_mode_dot-history", tuple(pattern), is_class, len(ops), failed), nontrivial=True)
         chk.hist("history_length", len(ops))
 
+    # --- (D3) the copy flag of tucker_mode_dot on the heap: arrays and core never change; copy=True: list untouched, nothing shared
+    for it in range(30 * mult):
+        core, fs, feat = H.gen_tucker(rng)
+        N = len(fs)
+        ls = list(range(N))
+        if it % 2 == 0:                                               # one array under two modes when two factors have the same shape
+            pairs = [(i, j) for i in range(N) for j in range(N) if i < j and fs[i].shape == fs[j].shape]
+            if pairs:
+                i, j = rng.choice(pairs); ls[j] = ls[i]
+        for _ in range(2):
+            mode = rng.randrange(N + (1 if rng.random() < 0.1 else 0))
+            kind = rng.choice(["mat", "vec", "veck"])
+            d = fs[ls[mode]].shape[0] if mode < N else 2
+            x = H.gen_operand(rng, d, "vec" if kind == "veck" else kind)
+            kd = kind == "veck"
+            copy = rng.random() < 0.5
+            is_class = rng.random() < 0.5
+            arrs = [f.copy() for f in fs]; facs = [arrs[i] for i in ls]; core_c = core.copy()
+            before = [a.copy() for a in arrs]
+            st0, operand = call(lambda: TuckerTensor((core_c, facs)) if is_class else (core_c, facs))
+            if st0 != "ok":
+                continue
+            st, out = call(tucker_mode_dot, operand, x.copy(), mode, keep_dim=kd, copy=copy)
+            if st != "ok":
+                lit, shared, cshared = "Err", [False] * len(arrs), False
+            else:
+                ofs = [np.asarray(f) for f in out[1]]
+                ok_print = H.integral(out[0], *ofs) and all(f.ndim == 2 for f in ofs)
+                lit = f"(Ok ({ztens(out[0])}, {zmats(ofs)}))" if ok_print else "(Ok (mk [99999]%nat (@nil Z), (@nil (list (list Z)))))"
+                shared = [any(np.shares_memory(a, r) for r in ofs) or np.shares_memory(a, np.asarray(out[0])) for a in arrs]
+                cshared = bool(np.shares_memory(core_c, np.asarray(out[0])) or any(np.shares_memory(core_c, r) for r in ofs))
+            same = len(facs) == len(ls) and all(f is arrs[i] for f, i in zip(facs, ls))
+            xl = f"(OpMat {zmat(x)})" if x.ndim == 2 else f"(OpVec {zrow(x)})"
+            emit(lambda: f"ZTkHeap {ztens(core)} {zmats(before)} {C.nat_list(ls)} {C.boolc(copy)} {xl} {mode}%nat {C.boolc(kd)} {lit} "
+                         f"{zmats(arrs)} {ztens(core_c)} [{'; '.join(C.boolc(b) for b in shared)}] {C.boolc(cshared)} {C.boolc(same)}",
+                 ("tucker_mode_dot", "heap", tuple(ls), is_class, copy, kind, mode))
+            chk.count(key=("tucker_mode_dot-heap", tuple(ls), is_class, copy, kind, mode), nontrivial=len(set(ls)) < len(ls))
+            chk.hist("tucker_alias_pattern", "shared" if len(set(ls)) < len(ls) else "distinct")
+            if st == "ok":
+                dense0 = H.dense_tucker(core, [before[i] for i in ls])
+                exp_d = H.dense_mode_dot(dense0, x, mode, kd)
+                inp = {"core": core, "table": before, "ls": ls, "x": x, "mode": mode, "keep_dim": kd, "copy": copy, "is_class": is_class}
+                if not H.close(H.dense_tucker(np.asarray(out[0]), ofs), exp_d, exact=True):
+                    chk.finding("tensorly.tucker_tensor.tucker_mode_dot", inp, "tucker_mode_dot on a factor list naming one array twice does not represent the mode product", "tucker_mode_dot_alias")
+                if not H.same_arrays(arrs, before) or not np.array_equal(core_c, core):
+                    chk.finding("tensorly.tucker_tensor.tucker_mode_dot", inp, f"tucker_mode_dot(copy={copy}) overwrote an array / the core of the caller", "tucker_mode_dot_alias")
+                if copy and (any(shared) or cshared or not same):
+                    chk.finding("tensorly.tucker_tensor.tucker_mode_dot", inp, "tucker_mode_dot(copy=True) touched the caller's list or returned memory shared with the caller's", "tucker_mode_dot_alias")
+
     # --- (E) the documented meaning of max_rank
     for it in range(12 * mult):
         K = rng.randint(1, 3)
